@@ -109,18 +109,31 @@ def hasDevData (h : Nat) : Bool := h &&& 0x20 ≠ 0
 /-- local message type addressed by a record header -/
 def localNum (h : Nat) : Nat := if isCompressed h then (h >>> 5) &&& 0x3 else h &&& 0xF
 
+/-- `n ≤ l.length`, looking at no more than `n` cells -/
+def hasN : List Nat → Nat → Bool
+  | _, 0 => true
+  | [], _ + 1 => false
+  | _ :: t, n + 1 => hasN t n
+
+theorem hasN_iff (l : List Nat) (n : Nat) : hasN l n = true ↔ n ≤ l.length := by
+  induction l generalizing n with
+  | nil => cases n <;> simp [hasN]
+  | cons a t ih => cases n with
+    | zero => simp [hasN]
+    | succ n => simp [hasN, ih]
+
 /-- parse one definition record whose header byte `h` has been removed: gives the record and the remaining bytes -/
 def parseDefinition (h off : Nat) (bs : List Nat) : Option (Rec × List Nat) :=
   match bs with
   | _reserved :: arch :: g0 :: g1 :: nf :: rest =>
-    if rest.length < 3 * nf then none else
+    if !hasN rest (3 * nf) then none else
     let fields := triplets (rest.take (3 * nf))
     let rest := rest.drop (3 * nf)
     let gnum := if arch = 0 then le16 g0 g1 else le16 g1 g0
     if hasDevData h then
       match rest with
       | nd :: rest =>
-        if rest.length < 3 * nd then none else
+        if !hasN rest (3 * nd) then none else
         let dev := triplets (rest.take (3 * nd))
         some ({ kind := .definition, hdr := h, localNum := h &&& 0xF, off := off, len := 6 + 3 * nf + 1 + 3 * nd,
                 arch := arch, globalNum := gnum, fields := fields, devFields := dev }, rest.drop (3 * nd))
@@ -147,7 +160,7 @@ def parseRecords : Nat → Defs → Nat → List Nat → Option (List Rec)
       match defs (localNum h) with
       | none => none                         -- data message without live definition
       | some n =>
-        if rest.length < n then none else
+        if !hasN rest n then none else
         match parseRecords fuel defs (off + 1 + n) (rest.drop n) with
         | none => none
         | some rs => some ({ kind := .data, hdr := h, localNum := localNum h, off := off, len := 1 + n } :: rs)
@@ -158,7 +171,7 @@ def parseSeq (off : Nat) (bs : List Nat) : Option (SeqView × List Nat) :=
   | none => none
   | some h =>
     let body := bs.drop h.size
-    if body.length < h.dataSize + 2 then none else
+    if !hasN body (h.dataSize + 2) then none else
     match parseRecords h.dataSize Defs.empty (off + h.size) (body.take h.dataSize) with
     | none => none
     | some rs =>
